@@ -89,7 +89,7 @@ fn $name() {
             assert!(e.0 == want);
             k += 1;
         }
-        kani::cover!(n >= 2 && first_idx == 63, "crosses into the next slice");
+        kani::cover!(first_idx as usize + n > 64, "crosses into the next slice");
         kani::cover!(n == 1);
     }
     core::mem::forget(env);
